@@ -203,4 +203,116 @@ theorem transfer_pushes {db : Db} {s s' : JState} {src dst : Addr} {v : Nat} {r 
                       · rw [upd_ne' hx2]; exact hbal3 x
 
 
+
+theorem upd_upd_upd_ne {α : Type} (g : Addr → α) {a t : Addr} (w u z : α) (h : ¬ a = t) :
+    upd (upd (upd g t w) a u) t z = upd (upd g t z) a u := by
+  funext b; unfold upd; by_cases hb : b = t
+  · subst hb; have : ¬ b = a := fun e => h e.symm; simp [this]
+  · simp [hb]
+
+/-- `selfdestruct`, the part after the target is loaded, `a = target` -/
+theorem selfdestruct_self {db : Db} {s sF : JState} {a : Addr} {acc : Acct} (cond : Prop) [Decidable cond]
+    (hbal : BalOk (absT db s)) (hs : s.state a = some acc)
+    (h : (if cond then
+            pushEntry (setAcct s a { acc with selfdestructed := true, info := { acc.info with balance := 0 } })
+              (.accountDestroyed a a acc.selfdestructed acc.info.balance)
+          else some s) = some sF) : ∃ es, Pushes db s sF es := by
+  have ha := absAcct_some db s hs
+  have hb : acc.info.balance < W := by rw [← absT_balance_some db hs]; exact hbal a
+  by_cases hc : cond
+  · rw [if_pos hc] at h
+    refine ⟨_, Pushes.of_push h rfl rfl rfl rfl ?_ (by simp) ?_⟩
+    · simp [absT_setAcct, putA, undoT, absOf, upd_upd_same, ha, upd_self', absSlot_some, wadd_zero_left hb]
+    · intro _ x
+      simp only [absT_setAcct, putA, absOf]
+      by_cases hx : x = a
+      · subst hx; simp; rw [W_val]; decide
+      · rw [upd_ne' hx]; exact hbal x
+  · rw [if_neg hc] at h; simp at h; subst h; exact ⟨[], Pushes.refl db s⟩
+
+
+/-- `selfdestruct`, `a ≠ target`: credit of the (touched) target, then the debit of `a` with its entry -/
+theorem selfdestruct_other {db : Db} {s sF : JState} {a t : Addr} {acc tacc : Acct} (cond : Prop) [Decidable cond]
+    (hat : ¬ a = t)
+    (hbal : BalOk (absT db s)) (hs : s.state a = some acc) (hst : s.state t = some tacc)
+    (h : (if cond then
+            pushEntry (setAcct (setAcct s t { tacc with info := { tacc.info with balance := U256.wadd tacc.info.balance acc.info.balance } })
+                a { acc with selfdestructed := true, info := { acc.info with balance := 0 } })
+              (.accountDestroyed a t acc.selfdestructed acc.info.balance)
+          else
+            pushEntry (setAcct (setAcct s t { tacc with info := { tacc.info with balance := U256.wadd tacc.info.balance acc.info.balance } })
+                a { acc with info := { acc.info with balance := 0 } })
+              (.balanceTransfer a t acc.info.balance)) = some sF) : ∃ es, Pushes db s sF es := by
+  have ha := absAcct_some db s hs
+  have hta' := absAcct_some db s hst
+  have hta : ¬ t = a := fun e => hat e.symm
+  have hb : acc.info.balance < W := by rw [← absT_balance_some db hs]; exact hbal a
+  have htb : tacc.info.balance < W := by rw [← absT_balance_some db hst]; exact hbal t
+  have hB : ∀ (acc' : Acct), acc'.info.balance = 0 →
+      BalOk (absT db (setAcct (setAcct s t { tacc with info := { tacc.info with balance := U256.wadd tacc.info.balance acc.info.balance } }) a acc')) := by
+    intro acc' h0 x
+    simp only [absT_setAcct, putA, absOf]
+    by_cases hx : x = a
+    · subst hx; simp [h0]; rw [W_val]; decide
+    · rw [upd_ne' hx]
+      by_cases hx2 : x = t
+      · subst hx2; simp; exact wadd_lt _ _
+      · rw [upd_ne' hx2]; exact hbal x
+  by_cases hc : cond
+  · rw [if_pos hc] at h
+    refine ⟨_, Pushes.of_push h rfl rfl rfl rfl ?_ (by simp) (fun _ => hB _ rfl)⟩
+    simp [absT_setAcct, putA, undoT, absOf, upd_upd_same, ha, hta', upd_self', upd_ne', absSlot_some, hta, hat,
+      wadd_zero_left hb, upd_upd_upd_ne, bsub_wadd_cancel htb hb]
+  · rw [if_neg hc] at h
+    refine ⟨_, Pushes.of_push h rfl rfl rfl rfl ?_ (by simp) (fun _ => hB _ rfl)⟩
+    simp [absT_setAcct, putA, undoT, absOf, upd_upd_same, ha, hta', upd_self', upd_ne', absSlot_some, hta, hat,
+      wadd_zero_left hb, upd_upd_upd_ne, bsub_wadd_cancel htb hb]
+
+
+theorem selfdestruct_pushes {db : Db} {s s' : JState} {a t : Addr} {r : Bool × Bool × Bool × Bool}
+    (hbal : BalOk (absT db s)) (h : selfdestruct db s a t = some (s', r)) :
+    (∃ es, Pushes db s s' es) ∧ r.2.2.2 = !(absT db s).warm t := by
+  simp only [selfdestruct, bind, Option.bind] at h
+  cases hl1 : loadAccount db s t with
+  | none => simp [hl1] at h
+  | some r1 =>
+    obtain ⟨s1, c1⟩ := r1
+    obtain ⟨p1, hc1, _⟩ := loadAccount_pushes hl1
+    have hbal1 := p1.bal hbal
+    simp [hl1] at h
+    cases hst1 : s1.state t with
+    | none => simp [hst1] at h
+    | some tacc1 =>
+      simp [hst1] at h
+      by_cases hat : a = t
+      · subst hat
+        simp [hst1] at h
+        split at h
+        · simp at h
+        · rename_i sF _ hX
+          simp at h; obtain ⟨h1, h2⟩ := h; subst h1
+          obtain ⟨es, p2⟩ := selfdestruct_self (db := db) _ hbal1 hst1 hX
+          exact ⟨⟨_, Pushes.trans p1 p2⟩, by rw [← h2]; exact hc1⟩
+      · simp [hat] at h
+        cases hs1 : s1.state a with
+        | none => simp [hs1] at h
+        | some acc =>
+          simp [hs1] at h
+          cases ht : touchAccount s1 t tacc1 with
+          | none => simp [ht] at h
+          | some r2 =>
+            obtain ⟨s2, tacc⟩ := r2
+            obtain ⟨p2, hst2, _, hne2, _⟩ := touchAccount_pushes (db := db) hst1 ht
+            have hs2 : s2.state a = some acc := by rw [hne2 a hat]; exact hs1
+            have hbal2 := p2.bal hbal1
+            have hta : ¬ t = a := fun e => hat e.symm
+            simp [ht, setAcct_state_ne, hat, hs2] at h
+            split at h
+            · simp at h
+            · rename_i sF _ hX
+              simp at h; obtain ⟨h1, h2⟩ := h; subst h1
+              obtain ⟨es, p3⟩ := selfdestruct_other (db := db) _ hat hbal2 hs2 hst2 hX
+              exact ⟨⟨_, Pushes.trans (Pushes.trans p1 p2) p3⟩, by rw [← h2]; exact hc1⟩
+
+
 end Revm.Proofs.Journal
